@@ -102,7 +102,13 @@ class QueriesLeg(object):
                     q["seqid"] = f["seqid"]
                     q["start"] = max(1, f["start"] + draw(st.integers(-2, 2)))
                     q["end"] = max(q["start"], f["end"] + draw(st.integers(-2, 2)))
-            return {"features": feats, "queries": qs,
+            added = []
+            if draw(st.booleans()):
+                for _ in range(draw(st.integers(1, 3))):
+                    iv = draw(interval())
+                    added.append({"seqid": draw(st.sampled_from(SEQIDS)), "ft": draw(st.sampled_from(FTS)), "start": iv[0], "end": iv[1],
+                                  "strand": draw(st.sampled_from(["+", "-", "."]))})
+            return {"features": feats, "queries": qs, "added": added,
                     "shift": draw(st.sampled_from([0, 0, 0, 1 << 17, (1 << 20) + 5, 131070]))}
 
         return case()
@@ -203,7 +209,39 @@ class QueriesLeg(object):
         db = gffutils.create_db("\n".join(lines) + "\n", ":memory:", from_string=True, transform=shift if sh else None)
         feats = self._stored(case)
         child = next((f for f in feats if f["parent"]), None)
+        # every query is followed by its twin with completely_within toggled (same bounds, same process), and the
+        # whole list is asked again after update() has added features through the same handle
+        queries = []
         for q in case["queries"]:
+            queries.append(q)
+            if q.get("form") not in ("kw-start-only", "kw-end-only"):
+                queries.append(dict(q, within=not q["within"]))
+        for phase in ("initial", "after-update"):
+            bad = self._run_queries(case, db, feats, child, queries, ctx, phase)
+            if bad is not None:
+                return bad
+            if phase == "initial":
+                extra = case.get("added") or []
+                if not extra:
+                    break
+                from gffutils.feature import feature_from_line
+
+                new_feats = []
+                for j, f in enumerate(extra):
+                    fid = "n%d" % j
+                    new_feats.append(dict(f, id=fid, parent=True))
+                lines2 = ["\t".join([f["seqid"], "src", f["ft"], str(f["start"]), str(f["end"]), ".", f["strand"], ".", "ID=%s;Parent=f0" % f["id"]])
+                          for f in new_feats]
+                db.update([feature_from_line(l) for l in lines2], make_backup=False)
+                feats = feats + new_feats
+                case = dict(case, features=case["features"] + [dict(f, start=f["start"] - sh, end=f["end"] - sh) for f in new_feats])
+                child = next((f for f in feats if f["parent"]), None)
+        return None
+
+    def _run_queries(self, case, db, feats, child, queries, ctx, phase):
+        from gffutils.feature import Feature
+
+        for q in queries:
             s, e, seqid = q["start"], q["end"], q["seqid"]
             kw = {}
             if q["strand"] is not None:
@@ -267,7 +305,7 @@ class QueriesLeg(object):
                 byid = dict((f["id"], f) for f in feats)
                 show = lambda ids: [(i, byid[i]["seqid"], byid[i]["start"], byid[i]["end"], byid[i]["strand"], byid[i]["ft"]) for i in sorted(ids)][:4]
                 return Failure(
-                    "%s: missing %r, unexpected %r" % (desc, show(missing), show(extra)),
+                    "%s%s: missing %r, unexpected %r" % ("" if phase == "initial" else "[after update() on the same handle] ", desc, show(missing), show(extra)),
                     sig={"kind": "region" if q["kind"] == "region" else "limit", "form": q.get("form"),
                          "missing": bool(missing), "extra": bool(extra), "beyond": q["end"] >= MAXC},
                 )
